@@ -75,19 +75,22 @@ type World struct {
 	flushSizeBefore       int64
 	sawLowerPrioOverwrite map[string]bool
 	pendingGetRefs        int
+	Aux                   *World // second store of the same process (C10)
 }
 
 // Snap is an open snapshot with the state it must keep showing.
 type Snap struct {
-	St     *gkvlite.Store
-	Exp    *RefStore
-	Closed bool
-	Colls  map[string]*gkvlite.Collection
+	St       *gkvlite.Store
+	Exp      *RefStore
+	Closed   bool
+	Reverted bool // its own FlushRevert was called: contents no longer specified by C04
+	Colls    map[string]*gkvlite.Collection
 }
 
 // OpenIter is an iterator left open across letters.
 type OpenIter struct {
 	It     gkvlite.ItemIterator
+	Name   string
 	Exp    [][]byte // remaining keys it must deliver
 	ExpV   map[string]RItem
 	Closed bool
@@ -819,6 +822,7 @@ func (w *World) RevertSnap(i int) {
 		return
 	}
 	w.Snaps[i].Exp.Revert()
+	w.Snaps[i].Reverted = true
 }
 
 // SnapRefused checks that a snapshot refuses Set, Delete and Flush.
@@ -891,7 +895,7 @@ func (w *World) ObserveAll() {
 		w.observe("Observe(orig)", w.St, w.M.Cur, "observe", true)
 	}
 	for i, sn := range w.Snaps {
-		if !sn.Closed {
+		if !sn.Closed && !sn.Reverted {
 			w.observe(fmt.Sprintf("Observe(s%d)", i), sn.St, sn.Exp.Cur, "snapshot", true)
 		}
 	}
@@ -1083,4 +1087,117 @@ func (w *World) observeColl(label string, st *gkvlite.Store, c *gkvlite.Collecti
 	}
 	sb.WriteString(";")
 	_ = fn
+}
+
+// ---------------------------------------------------------------- iterators and nested calls
+
+// IterOpen starts an ascending iterator over the whole collection and takes
+// the first item, which pins the version current at this moment.
+func (w *World) IterOpen(name string) {
+	c := w.Colls[name]
+	mc := w.M.Cur.Colls[name]
+	label := fmt.Sprintf("IterOpen(%s)", name)
+	w.begin(label, true, false)
+	w.Trans++
+	keys := mc.SortedKeys()
+	it := c.IterateAscend(LowTarget(mc.Cmp, keys), true)
+	oi := &OpenIter{It: it, Name: name, Exp: keys, ExpV: map[string]RItem{}}
+	for k, v := range mc.Items {
+		oi.ExpV[k] = v
+	}
+	w.Iters = append(w.Iters, oi)
+	w.iterNext(label, oi)
+}
+
+func (w *World) iterNext(label string, oi *OpenIter) {
+	ok := oi.It.Next()
+	if len(oi.Exp) == 0 {
+		if ok {
+			w.Fail("iterator", "extra-item", "%s: iterator delivered %q beyond the pinned version", label, oi.It.Result().Key)
+		}
+		oi.Closed = true
+		w.logf("%s=end", label)
+		return
+	}
+	if !ok {
+		w.Fail("iterator", "short", "%s: iterator ended but the pinned version still has %q (err %v)", label, oi.Exp[0], oi.It.Err())
+		oi.Closed = true
+		return
+	}
+	it := oi.It.Result()
+	want := oi.Exp[0]
+	oi.Exp = oi.Exp[1:]
+	ri := oi.ExpV[string(want)]
+	if it == nil || !bytes.Equal(it.Key, want) || it.Priority != ri.Prio || it.Val == nil || !bytes.Equal(it.Val, ri.Val) {
+		w.Fail("iterator", "wrong-item", "%s: iterator delivered %v, pinned version has (%q,%d,%s)", label, it, want, ri.Prio, vstr(ri.Val))
+	}
+	w.logf("%s=%q", label, want)
+}
+
+func (w *World) IterNext(i int) {
+	label := fmt.Sprintf("IterNext(i%d)", i)
+	w.begin(label, true, false)
+	w.Trans++
+	w.iterNext(label, w.Iters[i])
+}
+
+func (w *World) IterClose(i int) {
+	label := fmt.Sprintf("IterClose(i%d)", i)
+	w.begin(label, true, false)
+	w.Trans++
+	w.Iters[i].It.Close()
+	w.Iters[i].Closed = true
+	w.logf("%s", label)
+}
+
+// DrainIters drains every open iterator; each must deliver exactly the rest
+// of the version it pinned.
+func (w *World) DrainIters() {
+	for i, oi := range w.Iters {
+		for n := 0; !oi.Closed && n < 1000; n++ {
+			label := fmt.Sprintf("Drain(i%d)", i)
+			w.begin(label, true, false)
+			w.iterNext(label, oi)
+		}
+	}
+}
+
+// VisitNested runs inner inside the first visitor callback of an ascending
+// visit of collection name; the visit must still deliver the version that
+// was current when it started.
+func (w *World) VisitNested(name string, innerName string, inner func()) {
+	c := w.Colls[name]
+	mc := w.M.Cur.Colls[name].Clone()
+	label := fmt.Sprintf("VisitNested(%s){%s}", name, innerName)
+	w.begin(label, false, false)
+	w.Trans++
+	keys := mc.SortedKeys()
+	var got []string
+	first := true
+	bad := false
+	err := c.VisitItemsAscend(LowTarget(mc.Cmp, keys), true, func(it *gkvlite.Item) bool {
+		got = append(got, string(it.Key))
+		ri, ok := mc.Items[string(it.Key)]
+		if !ok || it.Priority != ri.Prio || it.Val == nil || !bytes.Equal(it.Val, ri.Val) {
+			bad = true
+		}
+		if first {
+			first = false
+			inner()
+			w.begin(label, false, false)
+		}
+		return true
+	})
+	if err != nil {
+		w.Fail("nested", "visit-error", "%s returned error %v", label, err)
+		return
+	}
+	var want []string
+	for _, k := range keys {
+		want = append(want, string(k))
+	}
+	if bad || strings.Join(got, "\x00") != strings.Join(want, "\x00") {
+		w.Fail("nested", "visit-sequence", "%s delivered %q (bad item %v), the version pinned at its start has %q", label, got, bad, want)
+	}
+	w.logf("%s=%q", label, got)
 }
